@@ -134,6 +134,18 @@ PROPS["C10"] = {
     "assumptions": H3_ASSUME,
 }
 
+PROPS["C15"] = {
+    "engine": "h3",
+    "level": "exploration",
+    "budget": {"quick": 45, "thorough": 600},
+    "runs_per_proc": 40,
+    "technique": "deterministic simulation of one real server with casbin authorisation enabled: generated policies (random subset of (resource, action) pairs for the restricted client), generated call sequences over every API method incl. streaming ones and requests with early side effects, policy rewrite + reload mid-run; state digest compared before/after every refused call",
+    "level_text": "for every call the generated policy does not allow the check demands an error and an identical state digest (streams, paused/read-only flags, every partition's log and HW, the cursors stream, the authorised client's group subscription still open, nothing delivered to the restricted client) after the system settled",
+    "level_note": "client identity is put into the context as authz.go does after TLS verification (TLS itself is bypassed); consumer-group methods have no documented action and are reported unclassified-by-docs; every method of client.APIServer is discovered by reflection and must be classified",
+    "rule": "programs of 10-30 (thorough -60) API calls; distinct = distinct event-log hash; non-trivial = >=2 refused calls judged and >=1 allowed call",
+    "assumptions": H3_ASSUME,
+}
+
 NOT_APPLICABLE = [
     {"property_id": pid, "reason": "check not built yet in this round (engine under construction); see DESIGN.md section 9 build order"}
     for pid in ["C%02d" % i for i in range(1, 20)] if pid not in PROPS
